@@ -199,7 +199,7 @@ Owns(P, x, g) ==
       [] P = "C17" -> x.authed /\ v \in {"PING", "PONG"} /\ (IsSt(g) \/ IsOut(g))
       [] P = "C18" -> g.t = "run" /\ g.a = "issue"      \* "keeps answering every live connection" (the rest of C18 is decided by TraceLin)
       [] P = "C19" -> \/ (IsSt(g) /\ g.a \in {"invCnt", "operCnt", "maxUsers", "connCnt"})
-                      \/ (g.t = "inv" /\ g.a = "counters")
+                      \/ (g.t = "inv" /\ g.a \in {"counters", "owner"})      \* presence is true: every listed user is a live registered connection
                       \/ (x.authed /\ ~x.perr /\ v \in {"LUSERS", "ISON", "USERHOST"} /\ IsOut(g))
                       \/ (v = "!open")
       [] P = "C20" -> \/ (x.authed /\ ~x.perr /\ v \in {"MOTD", "VERSION", "ADMIN", "INFO", "TIME", "LINKS", "HELP",
